@@ -40,7 +40,7 @@ Clauses(r) ==
             THEN {<<"C08.auto_v2", IF KF_C08_3(in) THEN "KF_C08_3" ELSE "other">>} ELSE {})
       \* auto-detection: old negation prefix + new-style operator is rejected with a tag-expression error
       \cup (IF IsMixed(in) /\ ~au.tee
-            THEN {<<"C08.mixed_rejected", IF KF_C08_1(in) THEN "KF_C08_1" ELSE "other">>} ELSE {})
+            THEN {<<"C08.mixed_rejected", "other">>} ELSE {})
 
 Divergences(r) ==
    LET in == In(r) IN
